@@ -56,6 +56,7 @@ class BasisTyping:
         self.n_conversions = 0
         self.n_combinations = 0
         self.n_endpoints = 0
+        self._depth = 0
         # setters: the value parameter carries the ordering of the property's name
         is_setter = any(d.endswith(".setter") for d in fn.decorators)
         own = None
@@ -102,6 +103,35 @@ class BasisTyping:
                     return XPXP if self.tag(e.func.value) is None else self.tag(e.func.value)
                 if len(e.args) == 2 and two(e.args[1]):
                     return XPXP if self.tag(e.args[0]) is None else self.tag(e.args[0])
+            # kron(M, identity(n)): the single-mode matrix M is spread over blocks (x1..xn, p1..pn) = xxpp;
+            # kron(identity(n), M) and block_diag(M, M, ...) / block_diag(*[M] * n) repeat it per mode = xpxp
+            if nm == "kron" and len(e.args) == 2:
+                a0, a1 = e.args
+                is_id = lambda x: isinstance(x, ast.Call) and (dotted(x.func) or "").split(".")[-1] in ("identity", "eye")  # noqa: E731
+                if is_id(a1) and not is_id(a0) and self.tag(a0) is None:
+                    return XXPP
+                if is_id(a0) and not is_id(a1) and self.tag(a1) is None:
+                    return XPXP
+            if nm == "block_diag" and e.args:
+                if len(e.args) == 1 and isinstance(e.args[0], ast.Starred):
+                    inner = e.args[0].value
+                    if isinstance(inner, ast.BinOp) and isinstance(inner.op, ast.Mult) and isinstance(inner.left, ast.List) and len(inner.left.elts) == 1 \
+                            and self.tag(inner.left.elts[0]) is None:
+                        return XPXP
+                elif len(e.args) >= 2 and len({norm(a) for a in e.args}) == 1 and self.tag(e.args[0]) is None:
+                    return XPXP
+            # a helper of the same module: the ordering of what it returns
+            if isinstance(e.func, ast.Name) and e.func.id in self.fn.module.functions and self._depth < 2:
+                callee = self.fn.module.functions[e.func.id]
+                sub = BasisTyping(callee)
+                sub._depth = self._depth + 1
+                sub.run()
+                rt = {sub.tag(r.value) for r in ast.walk(callee.node) if isinstance(r, ast.Return) and r.value is not None}
+                for a in list(e.args) + [k.value for k in e.keywords]:
+                    self.tag(a)
+                if len(rt) == 1 and None not in rt:
+                    return next(iter(rt))
+                return None
             if nm == "tile" and len(e.args) == 2 and two(e.args[1]) and not e.keywords:
                 return XXPP if self.tag(e.args[0]) is None else self.tag(e.args[0])
             if nm == "concatenate" and len(e.args) == 1 and isinstance(e.args[0], (ast.List, ast.Tuple)) and len(e.args[0].elts) == 2 \
@@ -132,7 +162,8 @@ class BasisTyping:
                 if c is not None:
                     conv, full = c, True
             if conv is None:
-                return None
+                # a selection of rows / columns (E[I], E[np.ix_(I, I)] with I not one of the two index maps) keeps the layout of E
+                return self.tag(e.value)
             self.n_conversions += 1
             src = self.tag(e.value)
             if src is not None and src != conv[0]:
